@@ -52,6 +52,10 @@ def make_stream (side, seed, big):
   n = rng.randrange(1, 13)
   msgs = []
   pl = (0, 0, 1, 3, 8, 20) if not big else (0, 8, 100, 700, 1400, 1500)
+  if big == "many":
+    # many short messages, so that a single read completes dozens of them
+    n = rng.choice([13, 16, 17, 31, 32, 33, 64, 65, rng.randrange(13, 200)])
+    pl = (0, 0, 1, 3)
   for _ in range(n):
     k = rng.choice(kinds)
     if side == "sw" and k == "hello" and rng.random() < 0.7:
@@ -185,7 +189,7 @@ def gen_cases (spec):
   for si in range(spec["streams"]):
     side = ("ctl", "sw")[si % 2]
     seed = "%d/%d/%d/%s" % (spec["seed"], spec["sub"], si, mode)
-    big = mode in ("big",)
+    big = "many" if mode == "many" else mode in ("big",)
     msgs = make_stream(side, seed, big)
     L = sum(len(m) for m in msgs)
     bounds = [0]
@@ -200,6 +204,16 @@ def gen_cases (spec):
       for a in range(1, L):
         for b in range(a + 1, L):
           yield dict(base, cuts=[a, b])
+    elif mode == "many":
+      yield dict(base, cuts=[])                        # one giant segment
+      yield dict(base, cuts=[bounds[len(bounds) // 2]])
+      yield dict(base, cuts=[bounds[1] + 3])
+      for step in (37, 256, 1000, 2048):
+        yield dict(base, cuts=list(range(step, L, step)))
+      for _ in range(spec.get("rand", 6)):
+        k = rng.randrange(1, 5)
+        yield dict(base, cuts=sorted(rng.randrange(1, max(2, L))
+                                     for _ in range(k)))
     elif mode == "misc" or mode == "big":
       yield dict(base, cuts=list(range(1, L)) if L < 3000 else
                  list(range(1, L, 7)))                  # dribble
@@ -228,11 +242,13 @@ def plan (tier, seed):
     sp += [dict(mode="cut2", streams=60, sub=i, maxlen=80) for i in range(4)]
     sp += [dict(mode="misc", streams=120, sub=i, rand=15) for i in range(3)]
     sp += [dict(mode="big", streams=30, sub=i, rand=10) for i in range(3)]
+    sp += [dict(mode="many", streams=40, sub=i, rand=6) for i in range(2)]
     return sp
   sp = [dict(mode="cut1", streams=150, sub=i) for i in range(16)]
   sp += [dict(mode="cut2", streams=400, sub=i, maxlen=140) for i in range(16)]
   sp += [dict(mode="misc", streams=3000, sub=i, rand=40) for i in range(8)]
   sp += [dict(mode="big", streams=500, sub=i, rand=40) for i in range(8)]
+  sp += [dict(mode="many", streams=1500, sub=i, rand=20) for i in range(8)]
   return sp
 
 
